@@ -4,12 +4,18 @@
 
 use h_common::{tool_error, Args};
 
+mod crash;
+mod migration;
+mod storelib;
+
 fn main() {
     let args = Args::from_env();
     let mode = args.pos(0).to_string();
     let model = args.pos(1).to_string();
     h_common::quiet_panics();
     match (mode.as_str(), model.as_str()) {
+        ("record", "storecrash") => crash::record(&args),
+        ("replay", "migration") => migration::replay(&args),
         _ => tool_error(&format!("unknown mode/model {mode}/{model}")),
     }
 }
